@@ -14,7 +14,7 @@ pub const RULE: &str = "case = one sampling run: dataset of 2..60 DNA or protein
 pub const REQUIRED: &[&str] = &[
     "alphabet.dna", "alphabet.protein", "mode.oops", "mode.zoops", "arm.dispatch[generic]", "arm.dispatch[sse2]",
     "arm.dispatch[avx2]", "arm.dispatch[auto]", "steps.checked", "start_changed", "zoops.inclusion", "zoops.rejection",
-    "zoops.inactive_holdout", "data.masked_sequence", "data.sparse_background", "data.very_long_sequence", "data.sampled_striped_sequences", "class.wrap_exceeds_width", "param.temperature=0", "param.temperature!=1", "data.hand_built_taller_matrix", "twin.compared", "dispatch_forced.generic",
+    "zoops.inactive_holdout", "data.masked_sequence", "data.sparse_background", "data.very_long_sequence", "history.other_width_sampler_first", "data.sampled_striped_sequences", "class.wrap_exceeds_width", "param.temperature=0", "param.temperature!=1", "data.hand_built_taller_matrix", "twin.compared", "dispatch_forced.generic",
     "dispatch_forced.sse2", "dispatch_forced.avx2",
 ];
 
@@ -105,8 +105,20 @@ fn run_once<A: Alphabet>(
     }
     let fail = |kind: &str, msg: String, step: usize| (kind.to_string(), msg, desc.clone().set("failing_step", J::u(step)));
 
+    // one run in three: the SamplerData has served another sampler, of another width, before
+    // (`builder.width(w2).sample(..)` on shared data is the documented way to try several widths)
+    let warm_width = if rng_seed % 3 == 0 && width >= 3 { Some(if rng_seed % 2 == 0 { width - 1 } else { 2 }) } else { None };
+    if let (Some(r), Some(_)) = (rep.as_mut(), warm_width) {
+        r.cover("history.other_width_sampler_first");
+    }
     let built = guard(|| {
         force(arm);
+        if let Some(w2) = warm_width {
+            let mut first: Sampler<'_, Rng, A, &Vec<StripedSequence<A, U32>>, U32> = Sampler::new(&data, w2, Rng::new(rng_seed ^ 0x5a5a));
+            for _ in 0..60 {
+                let _ = first.next();
+            }
+        }
         let s: Sampler<'_, Rng, A, &Vec<StripedSequence<A, U32>>, U32> = match mode {
             SamplerMode::Oops if inertia.is_none() && patience.is_none() && temperature == 1.0 => Sampler::new(&data, width, Rng::new(rng_seed)),
             _ => {
